@@ -2,6 +2,7 @@ use crate::engine::{Ctx, Finish, Local};
 
 pub mod c01;
 pub mod c02;
+pub mod c05;
 
 pub type RunFn = fn(&Ctx) -> Finish;
 pub type ReplayFn = fn(&mut Local, &serde_json::Value) -> Result<(), String>;
@@ -10,6 +11,7 @@ pub fn registry() -> Vec<(&'static str, RunFn, ReplayFn)> {
     vec![
         ("C01", c01::run as RunFn, c01::replay as ReplayFn),
         ("C02", c02::run as RunFn, c02::replay as ReplayFn),
+        ("C05", c05::run as RunFn, c05::replay as ReplayFn),
     ]
 }
 
